@@ -3,7 +3,7 @@
    ResolverPure.resolve_pure. *)
 From Zinoma.Model Require Import Bytes Cfg Names Ext Resolver.
 From Zinoma.Proofs Require Import Bytes Names ResolverSpec ResolverPure ResolverSound.
-From Coq Require Import Relations Lia PeanoNat.
+From Coq Require Import Relations Lia PeanoNat Permutation.
 Local Open Scope nat_scope.
 
 Definition acyclic_map (m : tmap) : Prop :=
@@ -209,4 +209,69 @@ Proof.
   - destruct E2 as [E2 _]. apply (E2 (ex_intro _ m2 eq_refl)). apply (broken_same_set cfg r1 r2 Hset).
     pose proof (resolve_spec cfg r1 f1 H1) as Hs. rewrite R1 in Hs. now exists e1.
   - exact I.
+Qed.
+
+(* ---- hash-map order is irrelevant: the resolver looks at the configuration through lookups only ---- *)
+Lemma fold_res_ext {S A} (f g : S -> A -> result S) : (forall s a, f s a = g s a) -> forall l s, fold_res f s l = fold_res g s l.
+Proof.
+  intros H. induction l as [|a l IH]; intros s; cbn [fold_res]; [reflexivity|]. rewrite H. destruct (g s a); [apply IH | reflexivity].
+Qed.
+
+Lemma add_target_p_ext cfg1 cfg2 :
+  (forall p, proj_dir cfg1 p = proj_dir cfg2 p) -> (forall t, lookup_yt cfg1 t = lookup_yt cfg2 t) ->
+  forall fuel m t parents, add_target_p cfg1 fuel m t parents = add_target_p cfg2 fuel m t parents.
+Proof.
+  intros Hd Hy. induction fuel as [|fuel IH]; intros m t parents; cbn [add_target_p]; [reflexivity|].
+  rewrite Hd, Hy. destruct (tmap_mem m t); [reflexivity|]. destruct (existsb (tid_eqb t) parents); [reflexivity|].
+  destruct (proj_dir cfg2 (t_project t)); [|reflexivity]. destruct (lookup_yt cfg2 t) as [[dir yt]|]; [|reflexivity].
+  destruct (transform_target t yt dir) as [[rt0 fi]|]; [|reflexivity]. cbv zeta.
+  rewrite (fold_res_ext _ (fun m' d => add_target_p cfg2 fuel m' d (parents ++ [t]))); [reflexivity|].
+  intros s a. apply IH.
+Qed.
+
+Theorem resolve_config_ext cfg1 cfg2 roots fuel :
+  (forall p, proj_dir cfg1 p = proj_dir cfg2 p) -> (forall t, lookup_yt cfg1 t = lookup_yt cfg2 t) ->
+  resolve cfg1 roots fuel = resolve cfg2 roots fuel.
+Proof.
+  intros Hd Hy. rewrite !resolve_pure. unfold resolve_p. apply fold_res_ext. intros s a. now apply add_target_p_ext.
+Qed.
+
+Section AssocPerm.
+  Context {K V : Type} (eqb : K -> K -> bool) (eqb_eq : forall a b, eqb a b = true <-> a = b).
+
+  Lemma assoc_nodup_in k v (l : list (K * V)) : NoDup (map fst l) -> In (k, v) l -> assoc eqb k l = Some v.
+  Proof.
+    induction l as [|[k' v'] l IH]; cbn [map fst assoc]; [intros _ []|]. intros Hnd [[= -> ->]|Hin].
+    - now rewrite (eqb_refl' eqb eqb_eq).
+    - inversion Hnd as [|x xs Hx Hnd']; subst. destruct (eqb k k') eqn:E; [|now apply IH].
+      apply eqb_eq in E. subst k'. exfalso. apply Hx. change k with (fst (k, v)). now apply in_map.
+  Qed.
+
+  Lemma assoc_perm k (l l' : list (K * V)) :
+    NoDup (map fst l) -> Permutation.Permutation l l' -> assoc eqb k l = assoc eqb k l'.
+  Proof.
+    intros Hnd Hp.
+    assert (Hnd' : NoDup (map fst l')) by (eapply Permutation.Permutation_NoDup; [apply Permutation.Permutation_map; exact Hp | exact Hnd]).
+    destruct (assoc eqb k l) as [v|] eqn:E.
+    - symmetry. apply assoc_nodup_in; [exact Hnd'|]. eapply Permutation.Permutation_in; [exact Hp|]. now apply (assoc_in eqb eqb_eq).
+    - symmetry. apply (assoc_none eqb eqb_eq). apply (assoc_none eqb eqb_eq) in E. intros Hin. apply E.
+      eapply Permutation.Permutation_in; [apply Permutation.Permutation_sym, Permutation.Permutation_map; exact Hp | exact Hin].
+  Qed.
+End AssocPerm.
+
+(* with pairwise distinct project names (FX7) a name means one project whatever the iteration order of the hash map *)
+Theorem unique_project cfg pn dp :
+  NoDup (map fst (ic_projects cfg)) -> In (pn, dp) (ic_projects cfg) -> lookup_project cfg pn = Some dp.
+Proof. intros Hnd Hin. unfold lookup_project. now apply (assoc_nodup_in opt_beq opt_beq_eq). Qed.
+
+Theorem resolve_project_order cfg1 cfg2 roots fuel :
+  NoDup (map fst (ic_projects cfg1)) -> Permutation.Permutation (ic_projects cfg1) (ic_projects cfg2) ->
+  resolve cfg1 roots fuel = resolve cfg2 roots fuel.
+Proof.
+  intros Hnd Hp.
+  assert (Hl : forall p, lookup_project cfg1 p = lookup_project cfg2 p).
+  { intros p. unfold lookup_project. now apply (assoc_perm opt_beq opt_beq_eq). }
+  apply resolve_config_ext.
+  - intros p. unfold proj_dir. now rewrite Hl.
+  - intros t. unfold lookup_yt. now rewrite Hl.
 Qed.
